@@ -42,6 +42,10 @@ def model_cases(p):
             elif k == "kernel1d":
                 w = KER.cubic_bspline1d(c["s"])
                 out.append({"val": w.double().tolist(), "shape": list(w.shape)})
+            elif k == "kernelnd":
+                fn = {1: KER.cubic_bspline1d, 2: KER.cubic_bspline2d, 3: KER.cubic_bspline3d}[c["D"]]
+                w = fn(c["stride"], derivative=c["d"])
+                out.append({"val": w.double().tolist(), "shape": list(w.shape)})
             elif k == "ctrl":
                 r = B.cubic_bspline_control_point_grid_size(c["m"], c["s"])
                 out.append({"val": [int(v) for v in r] if not isinstance(r, int) else int(r), "scalar": isinstance(r, int)})
@@ -213,6 +217,67 @@ def oracle(p):
                 fail(f"C14:cubic_bspline_value:d{d}:value", f"B^({d})({x}) = {v}, expected {want}", x=x, d=d)
         except Exception as e:  # noqa
             fail(f"C14:cubic_bspline_value:d{d}:raises", f"x={x}: {type(e).__name__}: {str(e)[:100]}", x=x, d=d)
+
+    # 2b. third derivative (piecewise constant; either one-sided value is accepted at a knot), zero beyond; 1-D kernels of every
+    #     order; 2-D / 3-D kernels = outer products of the 1-D kernels for per-axis and scalar strides
+    def b3(x):
+        ax = abs(x)
+        if ax >= 2:
+            return 0.0
+        v = 3.0 if ax < 1 else -1.0
+        return v if x >= 0 else -v
+    for x in [-2.5, -1.75, -1.5, -0.5, -0.25, 0.25, 0.5, 1.25, 1.5, 2.5] + [dy(rng, 6, -3, 3) + 1 / 256 for _ in range(10)]:
+        bump("bvalue-d3")
+        try:
+            v = KER.cubic_bspline_value(x, derivative=3)
+            if v is None or abs(float(v) - b3(x)) > 1e-12:
+                fail("C14:cubic_bspline_value:d3:value", f"third derivative at {x} is {v}, expected {b3(x)}", x=x)
+            for d in (4, 5):
+                v = KER.cubic_bspline_value(x, derivative=d)
+                if v is None or float(v) != 0.0:
+                    fail(f"C14:cubic_bspline_value:d{d}:value", f"B^({d})({x}) = {v}, expected 0", x=x)
+        except Exception as e:  # noqa
+            fail("C14:cubic_bspline_value:d3:raises", f"x={x}: {type(e).__name__}: {str(e)[:100]}", x=x)
+    def k1_ref(s_, d):
+        r_ = (4 * s_ - 1) // 2
+        out_ = []
+        for i_ in range(4 * s_ - 1):
+            x = Fraction(i_ - r_, s_)
+            if d < 3:
+                out_.append([float(Bref(x, d))])
+            else:
+                eps = Fraction(1, 1000)
+                out_.append(sorted({b3(float(x - eps)), b3(float(x + eps))}) if x.denominator == 1 else [b3(float(x))])
+        return out_
+    for s_ in range(1, 9):
+        for d in (0, 1, 2, 3):
+            bump("kernel1d")
+            try:
+                k = KER.cubic_bspline1d(s_, derivative=d).double().tolist()
+                ref = k1_ref(s_, d)
+                if len(k) != len(ref) or any(min(abs(a_ - c_) for c_ in cand) > 1e-6 for a_, cand in zip(k, ref)):
+                    fail(f"C14:cubic_bspline1d:d{d}:value", f"cubic_bspline1d({s_}, derivative={d}) = {k} is not B^({d})((i - r) / {s_})", s=s_, d=d)
+            except Exception as e:  # noqa
+                fail(f"C14:cubic_bspline1d:d{d}:raises", f"cubic_bspline1d({s_}, derivative={d}): {type(e).__name__}: {str(e)[:100]}", s=s_, d=d)
+    for D, fn in ((2, KER.cubic_bspline2d), (3, KER.cubic_bspline3d)):
+        strides = [tuple(rng.randint(1, 4) for _ in range(D)) for _ in range(5)] + [(2, 3, 1)[:D], (1, 2, 3)[-D:], 2, 3]
+        for st_ in strides:
+            for d in (0, 1):
+                bump(f"kernel{D}d")
+                ss_ = (st_,) * D if isinstance(st_, int) else st_
+                try:
+                    k = fn(st_, derivative=d).double()
+                    ref = None
+                    for ax in range(D):  # ax = spatial dim, tensor dim D-1-ax
+                        k1 = KER.cubic_bspline1d(ss_[ax], derivative=d).double()
+                        shp = [1] * D
+                        shp[D - 1 - ax] = k1.shape[0]
+                        ref = k1.reshape(shp) if ref is None else ref * k1.reshape(shp)
+                    if tuple(k.shape) != tuple(ref.shape) or float((k - ref).abs().max()) > 1e-6:
+                        fail(f"C14:cubic_bspline{D}d:outer-product", f"cubic_bspline{D}d(stride={st_}, derivative={d}) has shape {tuple(k.shape)}; it is not the outer "
+                             f"product of the 1-D kernels (shape {tuple(ref.shape)})", stride=st_, d=d)
+                except Exception as e:  # noqa
+                    fail(f"C14:cubic_bspline{D}d:raises", f"cubic_bspline{D}d(stride={st_}, derivative={d}): {type(e).__name__}: {str(e)[:100]}", stride=st_, d=d)
 
     # 3. control grid size: coverage, tightness, agreement of call forms -- exhaustive on m <= 80, s <= 16
     for m in range(1, 81):
